@@ -57,6 +57,14 @@ Theorem C12_forget_placement_irrelevant : forall fs fs',
 Proof. exact forget_placement_irrelevant. Qed.
 Print Assumptions C12_forget_placement_irrelevant.
 
+(* ImportDB.__or__ of two loaded databases = loading all the files together *)
+Theorem C12_or_is_compose : forall a b i,
+  (In i (known (db_or (compose a) (compose b))) <-> In i (known (compose (a ++ b)))) /\
+  (In i (mandatory (db_or (compose a) (compose b))) <-> In i (mandatory (compose (a ++ b)))) /\
+  (In i (forget (db_or (compose a) (compose b))) <-> In i (forget (compose (a ++ b)))).
+Proof. exact or_is_compose_app. Qed.
+Print Assumptions C12_or_is_compose.
+
 (* ---- index_respects_forget / index_values_nonempty ---- *)
 (* the value at a key is exactly: the known imports bound to that name, plus `import k` when k is a
    proper dotted prefix of a known import - each only if no forget list names it *)
@@ -142,6 +150,16 @@ Theorem C12_path_walk_names : forall C (t : tree C) rel,
   reach C t rel -> Forall (fun n => skip_name n = false) rel /\ is_py (last rel []) = true /\ rel <> [].
 Proof. exact reach_names. Qed.
 Print Assumptions C12_path_walk_names.
+
+(* in a tree with unique names per directory, "reachable" = a regular file at that relative path
+   none of whose components is hidden / __pycache__ / unsafe, and whose name ends in .py *)
+Theorem C12_path_walk_is_lookup : forall C rel (t : tree C),
+  uniq C t ->
+  (reach C t rel <->
+   (exists d es, t = Dir d es) /\ rel <> [] /\ (exists d c, lookup C t rel = Some (File d c)) /\
+   Forall (fun n => skip_name n = false) rel /\ is_py (last rel []) = true).
+Proof. exact reach_is_lookup. Qed.
+Print Assumptions C12_path_walk_is_lookup.
 
 (* ---- the property's first sentence, end to end ---- *)
 (* a successful (fresh) answer of get_default for a target is the union of the imports of the files
